@@ -317,6 +317,11 @@ def gen_cases(ctx):
         sh = [rng.choice([0, 0, 1, 1, 2, 3]) for _ in range(n)]
         msgs = [gen_msg(rng, k, j, 100 + j) for j, k in enumerate(sh)]
         yield {'kind': 'recv', 'label': 'rnd', 'msgs': msgs, 'plan': 'random', 'nrandom': ctx.n(6, 12)}
+    # many descriptors pending at once: 18 and 40 one-descriptor messages, and one message carrying 20
+    for count in (18, 40):
+        yield {'kind': 'recv', 'label': 'pending%d' % count, 'msgs': [gen_msg(rng, 1, j, 400 + j) for j in range(count)],
+               'plan': 'fds-first'}
+    yield {'kind': 'recv', 'label': 'one-with-20', 'msgs': [gen_msg(rng, 20, 0, 500), gen_msg(rng, 1, 1, 501)], 'plan': 'fds-first'}
     # sequences that break the arrival discipline or the declared counts: correspondence only
     for i in range(ctx.n(60, 1500)):
         n = rng.choice([2, 3])
@@ -465,6 +470,13 @@ def expand(ctx, c, wires):
             out.append({'kind': 'raw', 'label': c['label'], 'events': ev})
         return out, False
 
+    if c['plan'] == 'fds-first':
+        # EVERY descriptor of the whole sequence queued before the first byte (later messages' descriptors arbitrarily
+        # early is inside the arrival discipline): many descriptors pending at once
+        K = sum(nfds)
+        for reads in ([total], list(lens), cut_reads(total, [rng.randrange(1, total) for _ in range(5)])):
+            out.append(mk([['fd']] * K + [['rd', n] for n in reads]))
+        return out, False
     if c['plan'] == 'all':
         evs, complete = all_plans_small(lens, nfds, ctx, c['cap'])
         for ev in evs:
@@ -588,7 +600,13 @@ def run_impl_recv(P, events):
     dropped = False
     for e in events:
         if e[0] == 0:
-            p.fileDescriptorReceived(e[1])
+            try:
+                p.fileDescriptorReceived(e[1])
+            except Exception:
+                # the receiver has nothing to do with a descriptor but queue it (descriptors are opaque integers
+                # here; code that closes or inspects one raises): observed as a dropped connection
+                dropped = True
+                break
         else:
             try:
                 p.dataReceived(e[1])
